@@ -162,14 +162,14 @@ class TextTree(html.parser.HTMLParser):
 
 
 HTML_XSL = ('<xsl:stylesheet version="1.0" xmlns:xsl="%s" xmlns:xalan="http://xml.apache.org/xalan" exclude-result-prefixes="xalan"><xsl:output%%s/><xsl:template match="/"><html><head><title>t&amp;t</title>'
-            '<script>if (a &lt; b &amp;&amp; c) x("%%s");</script><style>p &gt; b {}</style></head><body><p id="a&lt;b">x<br/>y &lt; z &amp; w</p><hr/><img src="u v.png" alt="&lt;"/>'
+            '<script>if (a &lt; b &amp;&amp; c) x("%%s");</script><style>p &gt; b {}</style></head><body><p id="a&lt;b">x<br/>y &lt; z &amp; w &lt;b&gt;m&lt;/b&gt; &amp;amp;</p><hr/><img src="u v.png" alt="&lt;"/>'
             '<input type="checkbox" checked="checked" disabled="disabled"/><a href="http://x/a b?c=d&amp;e=é">l</a><textarea> k </textarea><pre> p\n q</pre>%%s</body></html></xsl:template></xsl:stylesheet>' % XSL)
 
 
 def html_expect_events(extra):
     ev = [('start', 'html'), ('start', 'head'), ('start', 'title'), ('data', 't&t'), ('end', 'title'),
           ('start', 'script'), ('data', 'if (a < b && c) x("%s");' % extra), ('end', 'script'), ('start', 'style'), ('data', 'p > b {}'), ('end', 'style'), ('end', 'head'),
-          ('start', 'body'), ('start', 'p'), ('data', 'x'), ('start', 'br'), ('data', 'y < z & w'), ('end', 'p'), ('start', 'hr'), ('start', 'img'),
+          ('start', 'body'), ('start', 'p'), ('data', 'x'), ('start', 'br'), ('data', 'y < z & w <b>m</b> &amp;'), ('end', 'p'), ('start', 'hr'), ('start', 'img'),
           ('start', 'input'), ('start', 'a'), ('data', 'l'), ('end', 'a'), ('start', 'textarea'), ('data', ' k '), ('end', 'textarea'),
           ('start', 'pre'), ('data', ' p\n q'), ('end', 'pre')]
     return ev
